@@ -67,7 +67,9 @@ CLAIMED["C06"] = (
     "Kernel-checked theorems for arbitrary id populations: max+1 and first-gap shape-id allocation are positive and "
     "unused (first-gap also minimal; pigeonhole), _next_rId and next_partname never fail and return an unused name "
     "(pigeonhole over Nat.repr-injective candidate names), first-free image/media index is unused (sorted scan, duplicates "
-    "allowed), slide id = max+1 in 256..2147483647 on the common path and unused/in-range on the fallback path; any "
+    "allowed), slide id: for every population of distinct ids inside 256..2147483647 that does not exhaust the range a new id "
+    "is delivered, unused and in range, on the common path (max+1) AND on the fallback path (first gap over the sorted ids; "
+    "nextSlideId_fresh: sorted() of distinct numbers is strictly increasing, the search fails only on a gap-free run); any "
     "interleaving of slide-level, nested-group, group-shape/freeform and turbo allocations keeps ids pairwise distinct and "
     "existing ids untouched (induction over the op list, turbo restricted to its documented single-proxy use).  "
     "Relationships shared by several references in one part (Model/Links: relate_to's re-use of a matching relationship, "
@@ -80,8 +82,9 @@ CLAIMED["C06"] = (
     "code by exact correspondence on seeded populations through the public API (for links: the part's relationships in "
     "insertion order and every r:id reference after every assignment, parts with foreign and gapped rIds), plus end-to-end uniqueness/stability "
     "checks on saved files after mixed histories over decks with scrambled slide part names.",
-    "Trusted: which allocator each add_* method uses is observed; slide-id fallback theorem is stated on the sorted valid "
-    "list (partial); turbo + second proxy is the documented limitation (negative theorem, not judged).",
+    "Trusted: which allocator each add_* method uses is observed; an id above the schema maximum beside a gap-free run makes "
+    "_next_id raise StopIteration (nextSlideId_stops; not a valid document, outside the property); turbo + second proxy is the "
+    "documented limitation (negative theorem, not judged).",
     "Lean 4 proof (pigeonhole, induction over allocation histories) + seeded correspondence + end-to-end oracles",
     "DESIGN.md §5 C06",
 )
